@@ -28,7 +28,7 @@ INCLUDES = ['-I' + os.path.join(REPO, 'include'), '-I' + os.path.join(REPO, 'inc
 BASE_DEFS = ['-DJLS_VERIF=1']
 
 CBMC_FLAGS = [
-    '--unwinding-assertions', '--pointer-overflow-check', '--undefined-shift-check',
+    '--unwinding-assertions', '--undefined-shift-check',
     '--signed-overflow-check', '--div-by-zero-check', '--drop-unused-functions',
     '--no-malloc-may-fail', '--json-ui', '--verbosity', '8',
 ]
@@ -72,6 +72,7 @@ class Obl:
         self.native_defs = list(native_defs)
         self.objbits = objbits
         self.units_note = []
+        self.unwind_text = []   # [(function, regex on the loop's source line, bound)]: resolved to loop ids after the build
 
 
 def sh(cmd, cwd=None, timeout=None, env=None):
@@ -115,6 +116,31 @@ def build_goto(obl, wd, extra_defs):
     if rc:
         raise RuntimeError('goto-cc link failed:\n%s' % o)
     return final
+
+
+_src_cache = {}
+
+
+def resolve_loops(final, specs):
+    """Map (function, regex-on-source-line, bound) to CBMC loop ids of the freshly built binary, so that bounds follow
+    the loops when /repo's source moves.  A loop of a listed function that matches no regex keeps the global --unwind."""
+    rc, out = sh(['goto-instrument', '--show-loops', final])
+    res = []
+    for m in re.finditer(r'Loop (\S+):\n\s+file (\S+) line (\d+)', out):
+        lid, f, ln = m.group(1), m.group(2), int(m.group(3))
+        fn = lid.rsplit('.', 1)[0]
+        if f not in _src_cache:
+            try:
+                _src_cache[f] = open(f, errors='replace').read().split('\n')
+            except OSError:
+                _src_cache[f] = []
+        lines = _src_cache[f]
+        text = lines[ln - 1] if 0 < ln <= len(lines) else ''
+        for (sfn, rx, bound) in specs:
+            if sfn == fn and re.search(rx, text):
+                res.append('%s:%d' % (lid, bound))
+                break
+    return res
 
 
 def _limit(mem_gb):
@@ -400,7 +426,16 @@ def run_obligation(prop, obl, tier):
             res.attempts.append(att)
             break
         unwind = xunwind if xunwind is not None else obl.unwind
-        unwindset = xunwindset if xunwindset is not None else obl.unwindset
+        unwindset = list(xunwindset if xunwindset is not None else obl.unwindset)
+        if obl.unwind_text:
+            try:
+                unwindset += resolve_loops(final, obl.unwind_text)
+            except Exception as e:
+                res.status = 'error'
+                res.note = 'loop resolution failed: %s' % e
+                att['error'] = res.note
+                res.attempts.append(att)
+                break
         timeout = obl.timeout * TIMEOUT_SCALE
         st, wall, rss, outp, cmd, btag = run_cbmc(obl, final, wd, unwind, unwindset, timeout)
         att.update({'backend': btag, 'wall_s': round(wall, 2), 'max_rss_mb': rss // 1024, 'unwind': unwind, 'unwindset': unwindset,
@@ -417,6 +452,14 @@ def run_obligation(prop, obl, tier):
             continue
         att['stats'] = pr.get('stats', {})
         results = pr['results']
+        odd = [r for r in results if r.get('status') not in ('SUCCESS', 'FAILURE')]
+        has_real_fail = any(r.get('status') == 'FAILURE' and not is_witness(r) for r in results)
+        # UNKNOWN next to a FAILURE is normal (paths behind a failed unwinding assertion are cut): the failure decides.
+        if (odd and not has_real_fail) or not results:
+            # e.g. solver ran out of memory: properties come back as ERROR/UNKNOWN - not a verdict
+            att['verdict'] = 'error: %d properties without verdict (%s)' % (len(odd), (odd[0].get('status') if odd else 'no results'))
+            res.attempts.append(att)
+            continue
         n = len(results)
         fails = [r for r in results if r.get('status') == 'FAILURE']
         wit = [r for r in results if is_witness(r)]
